@@ -25,8 +25,9 @@ static bool numeric_id(const std::string &id) { if (id.empty() || id.size() + 1 
 struct C18S : Scenario {
   const Config &cfg; std::string fam, prog; bool local; std::vector<std::vector<Cmd>> cases; std::vector<Fate> fates; const std::vector<Cmd> *cs = nullptr; std::string stream; size_t complete = 0; const Fate *fate = nullptr;
   int mainpid = 0; std::shared_ptr<Sink> out; int children = 0; std::vector<std::string> child_stdin; std::map<int, int> child_stage; std::map<int, std::string> child_in; std::string casename; bool cut = false;
-  std::vector<int> child_delnum_order;
+  std::vector<int> child_delnum_order; int spawnlimit = 120;
   C18S(const Config &c) : cfg(c) {
+    { std::ifstream f(c.srcdir + "/conf-spawn"); int v = 0; if (f >> v && v > 0 && v < 256) spawnlimit = v; }   // the compiled-in concurrency limit of the tree under test
     fam = c.get("family", "ids"); prog = c.get("prog", "rspawn"); local = prog == "lspawn";
     std::string okr = local ? "joe@local.example" : "r@remote.example";
     fates = { {"prints success, exits 0", local ? "delivered\n" : Z("r250 ok\n\0Kaccepted\n\0", 20), 0, 0, 'K', 'K'}, {"prints nothing, exits 0", "", 0, 0, 'Z', 'K'}, {"prints failure, exits 0 (remote) / 100 (local)", local ? "no such user\n" : Z("hbad\n\0DGiving up\n\0", 18), local ? 100 : 0, 0, 'D', 'D'},
@@ -64,7 +65,7 @@ struct C18S : Scenario {
     std::vector<std::string> av = {"qmail-" + prog}; if (local) av.push_back("./Mailbox");
     mainpid = w.spawn("/var/qmail/bin/qmail-" + prog, av, fds, local ? 0 : UID_QMAILR, local ? 0 : GID_QMAIL, "/");
   }
-  bool starts_child(const Cmd &c) { if (c.delnum >= 120) return false; if (!numeric_id(c.id)) return false; if (c.rcpt.find('@') == std::string::npos) return false; std::string n; for (char ch : c.id) if (!(ch == '/' && !n.empty() && n.back() == '/')) n += ch;   /* the kernel ignores repeated slashes */
+  bool starts_child(const Cmd &c) { if (c.delnum >= spawnlimit) return false; if (!numeric_id(c.id)) return false; if (c.rcpt.find('@') == std::string::npos) return false; std::string n; for (char ch : c.id) if (!(ch == '/' && !n.empty() && n.back() == '/')) n += ch;   /* the kernel ignores repeated slashes */
     return n == "8/123" || n == "123456" || n == "8/" + std::string(96, '1'); }
   std::string script(World &, Proc &p) override {
     std::string a; int v; auto I = [&](int x) { v = x; a.append((char *) &v, 4); };
@@ -91,7 +92,7 @@ struct C18S : Scenario {
     std::string key = "C18:" + casename;
     if (!p || (p->st != P_ZOMBIE && p->st != P_REAPED) || p->status != 0) { w.soft_violation("C18:spawner-exit:" + casename, casename + ": the spawner did not exit 0 after end of input (status " + std::to_string(p ? p->status : -1) + ")"); return; }
     const std::string &o = out->data;
-    if (o.empty() || (unsigned char) o[0] != 120) { w.soft_violation(key, casename + ": first byte written is not the concurrency announcement: [" + esc(o, 60) + "]"); return; }
+    if (o.empty() || (unsigned char) o[0] != spawnlimit) { w.soft_violation(key, casename + ": first byte written is not the concurrency announcement: [" + esc(o, 60) + "]"); return; }
     // reports: delnum, text without NUL, NUL
     std::vector<std::pair<int, std::string>> reps; size_t i = 1;
     while (i < o.size()) { int dn = (unsigned char) o[i++]; size_t z = o.find('\0', i); if (z == std::string::npos) { w.soft_violation(key, casename + ": unterminated report at the end of the output: [" + esc(o.substr(i - 1), 80) + "]"); return; } reps.push_back({dn, o.substr(i, z - i)}); i = z + 1; }
@@ -113,8 +114,8 @@ struct C18S : Scenario {
       const std::string *txt = nullptr; for (auto &r : reps) if (r.first == cm.delnum) txt = &r.second;
       if (!txt) continue;
       char got = (*txt)[0], want;
-      if (cm.delnum >= 120) want = 'Z'; else if (!numeric_id(cm.id)) want = 'D'; else if (cm.rcpt.find('@') == std::string::npos) want = 'D'; else if (!starts_child(cm)) want = 'Z'; else want = local ? fate->want_l : fate->want_r;
-      if (cm.id.empty() && cm.delnum < 120) want = 'D';
+      if (cm.delnum >= spawnlimit) want = 'Z'; else if (!numeric_id(cm.id)) want = 'D'; else if (cm.rcpt.find('@') == std::string::npos) want = 'D'; else if (!starts_child(cm)) want = 'Z'; else want = local ? fate->want_l : fate->want_r;
+      if (cm.id.empty() && cm.delnum < spawnlimit) want = 'D';
       if (got != want) { w.soft_violation(fam == "fate" ? "C09:relay:" + prog + ":" + fate->name : key, casename + ": delivery " + std::to_string(cm.delnum) + " is reported as [" + esc(*txt, 80) + "], expected status " + std::string(1, want)); return; }
       w.counters[std::string("verdict_") + got]++;
     }
